@@ -1,18 +1,21 @@
-(* Proofs/SerdeRTTv.v — C07, toml::Value::try_from / Table::try_from read back by try_into, for values
-   WITHOUT any documented unsupported shape (`supported`): there the family succeeds and round-trips.
-   (With a None below a field it silently drops data: Proofs/SerdeRTTryFrom.v.) *)
+(* Proofs/SerdeRTTv.v — C07, toml::Value::try_from / Table::try_from read back by try_into:
+     * a value without any documented unsupported shape (`supported`) is accepted and round-trips;
+     * a failure names a documented unsupported shape;
+     * (since the repair of C07-tryfrom-nested-none-dropped) a value WITH such a shape is refused, so that the family
+       accepts exactly the `supported` values and whatever it accepts round-trips — on types whose map keys are not
+       `char` / `Option<_>` (`doc_keys`: SerializeMap::serialize_key accepts those, the document serializers do not). *)
 From TV Require Import Base.Prelude Base.Utf8 Model.Datetime Model.DatetimeStd Model.WriteFloat Model.SerNum
   Spec.DatetimeSpec Spec.SerdeData Model.Ser Model.De
   Proofs.DatetimeEq Proofs.NumbersRT_Ser Proofs.SerdeRTBase Proofs.SerdeRTEq Proofs.SerdeRTLeaf Proofs.SerdeRTLists
-  Proofs.SerdeRT Proofs.SerdeRTErr Proofs.SerdeRTBTree.
+  Proofs.SerdeRT Proofs.SerdeRTErr Proofs.SerdeRTRefuse Proofs.SerdeRTBTree.
 From Coq Require Import Permutation Sorted.
 
 (* ---- unfolding equations ---- *)
 Definition tv_fields (fs : list (bytes * ty)) (vs : list sval) : result (list (option (bytes * tomlval))) :=
-  zipM (fun ft v' => rmap (optmap (fun x => (fst ft, x))) (tv_map_value (tv_ser (snd ft) v'))) fs vs.
+  zipM (fun ft v' => rmap (optmap (fun x => (fst ft, x))) (ser_map_value tv_ser (snd ft) v')) fs vs.
 Definition tv_entries (kt vt : ty) (es : list (sval * sval)) : result (list (option (bytes * tomlval))) :=
   mapM (fun kv => rbind (tv_key (tv_ser kt (fst kv))) (fun k =>
-                  rmap (optmap (fun x => (k, x))) (tv_map_value (tv_ser vt (snd kv))))) es.
+                  rmap (optmap (fun x => (k, x))) (ser_map_value tv_ser vt (snd kv)))) es.
 Definition btable_of (ps : list (option (bytes * tomlval))) : tomlval := VTab (btree_of_pairs (somes_pairs ps)).
 Definition tv_variant (p : sval) (nv : bytes * variant) : result tomlval :=
   match snd nv with
@@ -82,15 +85,14 @@ Definition TVERR (t : ty) : Prop :=
 Definition TVERRV (var : variant) : Prop :=
   var <> VUnit -> forall p e, has_type_variant_b var p = true -> tv_payload var p = Err e -> exists e', unsupported_variant var p e'.
 
-Lemma tv_map_value_err r e : tv_map_value r = Err e -> r = Err e /\ e <> EUnsupportedNone.
-Proof. destruct r as [x|e0]; simpl; [discriminate|]. destruct e0; intro H; try discriminate H; injection H as <-; split; congruence. Qed.
-
-Lemma tverr_field t v e : TVERR t -> has_type_b t v = true -> tv_map_value (tv_ser t v) = Err e ->
+Lemma tverr_field t v e : TVERR t -> has_type_b t v = true -> ser_map_value tv_ser t v = Err e ->
   exists e', unsupported CField t v e'.
 Proof.
-  intros IH Hty H. apply tv_map_value_err in H as [H Hne]. destruct (IH v e Hty H) as (e' & U).
-  exists e'. apply unsupported_ctx; [exact U|]. intros ->.
-  pose proof (none_typed t Hty) as Ho. destruct t; try discriminate Ho. simpl in H. congruence.
+  intros IH Hty H.
+  assert (Hn : v <> SNone).
+  { intros ->. pose proof (none_typed t Hty) as Ho. destruct t; try discriminate Ho. simpl in H. discriminate H. }
+  rewrite (ser_map_value_not_none tv_ser t v Hn) in H. apply rmap_err in H.
+  destruct (IH v e Hty H) as (e' & U). exists e'. apply unsupported_ctx; assumption.
 Qed.
 
 Lemma tverr_tuple ts vs e : Forall TVERR ts -> all2b has_type_b ts vs = true -> zipM tv_ser ts vs = Err e ->
@@ -243,17 +245,11 @@ Proof.
     apply rbind_ok in H as (p & Hp & H). apply rbind_ok in H as (ps' & Hps & H). injection H as <-.
     constructor; [|apply IH; [exact Hvs|exact (fun i => Hs (S i))|exact Hps]].
     apply rmap_ok in Hp as (ox & Hox & ->).
-    pose proof (Hs 0%nat f t v) as Hs0. simpl in Hs0.
-    destruct (tv_ser t v) as [x|e] eqn:E; simpl in Hox.
-    + injection Hox as <-. simpl. split; [reflexivity|]. apply (IHt v x Hv); [|exact E].
-      intros e U. apply (Hs0 e eq_refl eq_refl). apply unsupported_ctx; [exact U|].
-      intros ->. pose proof (none_typed t Hv) as Ho. destruct t; try discriminate Ho. simpl in E. discriminate E.
-    + assert (e = EUnsupportedNone) as -> by (destruct e; try discriminate Hox; reflexivity).
-      simpl in Hox. injection Hox as <-. simpl.
-      destruct (tv_errors t v _ Hv E) as (e' & U).
-      assert (v = SNone) as ->.
-      { destruct v; try reflexivity; exfalso; apply (Hs0 e' eq_refl eq_refl); apply unsupported_ctx; try exact U; discriminate. }
-      split; [reflexivity|apply (none_typed t Hv)].
+    destruct (ser_map_value_cases tv_ser t v) as [(t' & -> & -> & E)|[_ E]]; rewrite E in Hox.
+    + injection Hox as <-. simpl. auto.
+    + apply rmap_ok in Hox as (x & Hx & ->). simpl. split; [reflexivity|]. apply (IHt v x Hv); [|exact Hx].
+      intros e U. apply (Hs 0%nat f t v e eq_refl eq_refl). apply unsupported_ctx; [exact U|].
+      intros ->. pose proof (none_typed t Hv) as Ho. destruct t; try discriminate Ho. simpl in Hx. discriminate Hx.
 Qed.
 
 Lemma tvrt_struct_fields fs : Forall (fun ft => TVRT (snd ft)) fs -> forall vs ps,
@@ -330,11 +326,12 @@ Proof.
       (* the value: not an Option, so it is present *)
       assert (Hvn : v <> SNone).
       { intros ->. pose proof (none_typed vt Hv). congruence. }
+      rewrite (ser_map_value_not_none tv_ser vt v Hvn) in Hox.
       destruct (tv_ser vt v) as [y|e] eqn:E; simpl in Hox.
       + injection Hox as <-. exists ((s, y) :: xs). split; [reflexivity|]. constructor; [|exact F]. simpl.
         repeat split; try assumption. apply (IHv v y Hv); [|exact E].
         intros e U. apply (Hbv e). apply unsupported_ctx; assumption.
-      + exfalso. destruct (tv_errors vt v e Hv E) as (e' & U). apply (Hbv e'). apply unsupported_ctx; assumption. }
+      + discriminate Hox. }
   destruct F as (xs & -> & F).
   assert (Hk : somes (map (fun kv => key_text kt (fst kv)) es) = map fst xs).
   { apply (entries_keys kt es xs (fun kv kx => tv_de kt (VStr (fst kx)) = Ok (fst kv) /\ sval_eq (fst kv) (fst kv) /\
@@ -535,4 +532,204 @@ Proof.
   intros Hty Hs H. destruct (tv_table_cases t v out Hty H) as [E|(d & -> & E)].
   - apply (tv_roundtrip_supported t v out Hty Hs E).
   - apply (tv_de_root_datetime t v d Hty E H).
+Qed.
+
+(* ---- the converse of tv_errors (since the repair of C07-tryfrom-nested-none-dropped): a value with a documented
+   unsupported shape is refused — nothing is silently dropped.  `doc_keys`: map keys of type char / Option<_>
+   are accepted by SerializeMap::serialize_key although they are "bad keys" for a document. ---- *)
+Lemma dk_forall_nth (ts : list ty) i t : forallb doc_keys ts = true -> nth_error ts i = Some t -> doc_keys t = true.
+Proof. intros H Hn. rewrite forallb_forall in H. apply H. eapply nth_error_In; exact Hn. Qed.
+Lemma dk_fields_nth (fs : list (bytes * ty)) i f t :
+  forallb (fun ft => doc_keys (snd ft)) fs = true -> nth_error fs i = Some (f, t) -> doc_keys t = true.
+Proof. intros H Hn. rewrite forallb_forall in H. apply (H (f, t)). eapply nth_error_In; exact Hn. Qed.
+
+Lemma tv_key_of_nonstring r : (forall s, r <> Ok (VStr s)) -> exists e', tv_key r = Err e'.
+Proof. intro H. destruct r as [x|e]; [|simpl; eauto]. destruct x; simpl; eauto. exfalso. eapply H. reflexivity. Qed.
+
+Lemma tv_bad_key_fails t a e : bad_key t a e -> has_type_b t a = true -> doc_key_ty t = true ->
+  exists e', tv_key (tv_ser t a) = Err e'.
+Proof.
+  induction 1 as [n t v e _ IH|v|v|t v Hk Hn H1 H2]; intros Hty Hd.
+  - rewrite ts_newtype. apply IH; [rewrite ht_newtype in Hty; exact Hty|exact Hd].
+  - destruct v; simpl in Hty; try discriminate Hty. eexists. reflexivity.
+  - destruct v; simpl in Hty; try discriminate Hty. eexists. reflexivity.
+  - apply tv_key_of_nonstring. intros s E.
+    destruct t; try discriminate Hd.
+    + destruct v; simpl in Hty; try discriminate Hty. discriminate E.
+    + destruct v; simpl in Hty; try discriminate Hty. simpl in E. destruct (tv_ser_int w z); discriminate E.
+    + destruct w; destruct v; simpl in Hty; try discriminate Hty; discriminate E.
+    + destruct v; simpl in Hty; try discriminate Hty. simpl in Hk. discriminate Hk.
+    + destruct v; simpl in Hty; try discriminate Hty. simpl in E. unfold ser_datetime in E.
+      destruct (dt_field_str (display_datetime d)); discriminate E.
+    + destruct v; simpl in Hty; try discriminate Hty. discriminate E.
+    + destruct v; simpl in Hty; try discriminate Hty. discriminate E.
+    + destruct v; try (simpl in Hty; discriminate Hty). rewrite ts_seq in E. destruct (mapM (tv_ser t) vs); discriminate E.
+    + destruct v; try (simpl in Hty; discriminate Hty). rewrite ts_tuple in E. destruct (zipM tv_ser ts vs); discriminate E.
+    + destruct v; try (simpl in Hty; discriminate Hty). rewrite ts_map in E. destruct (tv_entries t1 t2 es); discriminate E.
+    + destruct v; try (simpl in Hty; discriminate Hty). rewrite ht_struct in Hty.
+      apply andb_true_iff in Hty as [Hty _]. apply andb_true_iff in Hty as [Hpriv _]. apply negb_true_iff in Hpriv.
+      rewrite (ts_struct name fs vs Hpriv) in E. destruct (tv_fields fs vs); discriminate E.
+    + exfalso. eapply Hn. reflexivity.
+    + destruct v; try (simpl in Hty; discriminate Hty). rewrite ts_tuple_struct in E. destruct (zipM tv_ser ts vs); discriminate E.
+    + destruct v as [| | | | | | | | | | | | | |i p]; try (simpl in Hty; discriminate Hty).
+      rewrite ht_enum in Hty. apply andb_true_iff in Hty as [_ Hp]. rewrite kt_enum in Hk. rewrite ts_enum in E.
+      destruct (pick_cases (tv_variant p) (Err EBadCase) vs i) as [([vn var] & Hnth & E')|[_ E']]; rewrite E' in E; [|discriminate E].
+      rewrite (pick_nth _ _ _ _ _ Hnth) in Hk. unfold key_text_variant in Hk. unfold tv_variant in E. simpl in *.
+      destruct var; try discriminate Hk; destruct (tv_payload _ p); discriminate E.
+Qed.
+
+Definition REFT (c : ctx) (t : ty) (v : sval) (e : err) : Prop :=
+  has_type_b t v = true -> doc_keys t = true ->
+  exists e', tv_ser t v = Err e' /\ (c = CField -> ser_map_value tv_ser t v = Err e').
+Definition REFTV (var : variant) (p : sval) (e : err) : Prop :=
+  has_type_variant_b var p = true -> doc_keys_variant var = true -> exists e', tv_payload var p = Err e'.
+
+Ltac tfield_part := intros _; rewrite ser_map_value_not_none by discriminate.
+
+Theorem tv_unsupported_refused_gen : forall c t v e, unsupported c t v e -> REFT c t v e.
+Proof.
+  apply (unsupported_min REFT REFTV); unfold REFT, REFTV.
+  - (* u_none *) intros t _ _. exists EUnsupportedNone. split; [reflexivity|discriminate].
+  - (* u_some *) intros c t v e _ IH Hty Hd. rewrite ht_opt_some in Hty. destruct (IH Hty Hd) as (e' & E & _).
+    exists e'. rewrite ts_opt_some. split; [exact E|]. tfield_part. rewrite ts_opt_some, E. reflexivity.
+  - intros c _ _. eexists. split; [reflexivity|]. tfield_part. reflexivity.
+  - intros c n _ _. eexists. split; [reflexivity|]. tfield_part. reflexivity.
+  - (* u_u64 *) intros c w z M F _ _. exists (tv_int_err w).
+    assert (E : tv_ser (TInt w) (SInt z) = Err (tv_int_err w)).
+    { simpl. unfold tv_ser_int. rewrite M. unfold tv_serialize_u64. rewrite F. reflexivity. }
+    split; [exact E|]. tfield_part. rewrite E. reflexivity.
+  - intros c w z M _ _. exists (tv_int_err w).
+    assert (E : tv_ser (TInt w) (SInt z) = Err (tv_int_err w)).
+    { simpl. unfold tv_ser_int. rewrite M. reflexivity. }
+    split; [exact E|]. tfield_part. rewrite E. reflexivity.
+  - intros c w z M _ _. exists (tv_int_err w).
+    assert (E : tv_ser (TInt w) (SInt z) = Err (tv_int_err w)).
+    { simpl. unfold tv_ser_int. rewrite M. reflexivity. }
+    split; [exact E|]. tfield_part. rewrite E. reflexivity.
+  - (* u_seq *) intros c t vs v e Hin _ IH Hty Hd. rewrite ht_seq in Hty. rewrite forallb_forall in Hty.
+    destruct (IH (Hty v Hin) Hd) as (e' & E & _). destruct (mapM_fails (tv_ser t) vs v e' Hin E) as (e'' & E'').
+    exists e''. assert (E3 : tv_ser (TSeq t) (SSeq vs) = Err e'') by (rewrite ts_seq, E''; reflexivity).
+    split; [exact E3|]. tfield_part. rewrite E3. reflexivity.
+  - (* u_tuple *) intros c ts vs i t v e H1 H2 _ IH Hty Hd. rewrite ht_tuple in Hty.
+    destruct (IH (all2b_nth _ _ _ _ _ _ Hty H1 H2) (dk_forall_nth ts i t Hd H1)) as (e' & E & _).
+    destruct (zipM_fails tv_ser ts vs i t v e' H1 H2 E) as (e'' & E'').
+    exists e''. assert (E3 : tv_ser (TTuple ts) (SSeq vs) = Err e'') by (rewrite ts_tuple, E''; reflexivity).
+    split; [exact E3|]. tfield_part. rewrite E3. reflexivity.
+  - (* u_tuple_struct *) intros c n ts vs i t v e H1 H2 _ IH Hty Hd. rewrite ht_tuple_struct in Hty.
+    destruct (IH (all2b_nth _ _ _ _ _ _ Hty H1 H2) (dk_forall_nth ts i t Hd H1)) as (e' & E & _).
+    destruct (zipM_fails tv_ser ts vs i t v e' H1 H2 E) as (e'' & E'').
+    exists e''. assert (E3 : tv_ser (TTupleStruct n ts) (SSeq vs) = Err e'') by (rewrite ts_tuple_struct, E''; reflexivity).
+    split; [exact E3|]. tfield_part. rewrite E3. reflexivity.
+  - (* u_map_key *) intros c kt vt es k v e Hin Hbk Hty Hd. rewrite ht_map in Hty.
+    apply andb_true_iff in Hty as [Hty _]. apply andb_true_iff in Hty as [_ Hes]. rewrite forallb_forall in Hes.
+    pose proof (Hes _ Hin) as Hkv. simpl in Hkv. apply andb_true_iff in Hkv as [Hk _].
+    simpl in Hd. apply andb_true_iff in Hd as [Hd _]. apply andb_true_iff in Hd as [Hdk _].
+    destruct (tv_bad_key_fails kt k e Hbk Hk Hdk) as (e' & E).
+    destruct (mapM_fails (fun kv => rbind (tv_key (tv_ser kt (fst kv))) (fun k0 =>
+                 rmap (optmap (fun x => (k0, x))) (ser_map_value tv_ser vt (snd kv)))) es (k, v) e' Hin) as (e'' & E'').
+    { simpl. rewrite E. reflexivity. }
+    exists e''. assert (E3 : tv_ser (TMap kt vt) (SMap es) = Err e'') by (rewrite ts_map; unfold tv_entries; rewrite E''; reflexivity).
+    split; [exact E3|]. tfield_part. rewrite E3. reflexivity.
+  - (* u_map_val *) intros c kt vt es k v e Hin _ IH Hty Hd. rewrite ht_map in Hty.
+    apply andb_true_iff in Hty as [Hty _]. apply andb_true_iff in Hty as [_ Hes]. rewrite forallb_forall in Hes.
+    pose proof (Hes _ Hin) as Hkv. simpl in Hkv. apply andb_true_iff in Hkv as [_ Hv].
+    simpl in Hd. apply andb_true_iff in Hd as [_ Hdv].
+    destruct (IH Hv Hdv) as (e' & _ & E). specialize (E eq_refl).
+    assert (exists e0, rbind (tv_key (tv_ser kt k)) (fun k0 => rmap (optmap (fun x => (k0, x))) (ser_map_value tv_ser vt v)) = Err e0) as (e0 & E0).
+    { destruct (tv_key (tv_ser kt k)); simpl; [rewrite E; simpl|]; eauto. }
+    destruct (mapM_fails (fun kv => rbind (tv_key (tv_ser kt (fst kv))) (fun k0 =>
+                 rmap (optmap (fun x => (k0, x))) (ser_map_value tv_ser vt (snd kv)))) es (k, v) e0 Hin E0) as (e'' & E'').
+    exists e''. assert (E3 : tv_ser (TMap kt vt) (SMap es) = Err e'') by (rewrite ts_map; unfold tv_entries; rewrite E''; reflexivity).
+    split; [exact E3|]. tfield_part. rewrite E3. reflexivity.
+  - (* u_struct *) intros c n fs vs i f t v e H1 H2 _ IH Hty Hd. rewrite ht_struct in Hty.
+    apply andb_true_iff in Hty as [Hty Hvs]. apply andb_true_iff in Hty as [Hpriv _]. apply negb_true_iff in Hpriv.
+    pose proof (all2b_nth _ _ _ _ _ _ Hvs H1 H2) as Hv. simpl in Hv.
+    destruct (IH Hv (dk_fields_nth fs i f t Hd H1)) as (e' & _ & E). specialize (E eq_refl).
+    destruct (zipM_fails (fun ft v' => rmap (optmap (fun x => (fst ft, x))) (ser_map_value tv_ser (snd ft) v')) fs vs i (f, t) v e' H1 H2)
+      as (e'' & E''); [simpl; rewrite E; reflexivity|].
+    exists e''. assert (E3 : tv_ser (TStruct n fs) (SRec vs) = Err e'').
+    { rewrite (ts_struct n fs vs Hpriv). unfold tv_fields. rewrite E''. reflexivity. }
+    split; [exact E3|]. tfield_part. rewrite E3. reflexivity.
+  - (* u_newtype *) intros c n t v e _ IH Hty Hd. rewrite ht_newtype in Hty. destruct (IH Hty Hd) as (e' & E & _).
+    exists e'. rewrite ts_newtype. split; [exact E|]. tfield_part. rewrite ts_newtype, E. reflexivity.
+  - (* u_variant *) intros c n vs i vn var p e Hn Hu IH Hty Hd. rewrite ht_enum in Hty. apply andb_true_iff in Hty as [_ Hp].
+    rewrite (pick_nth _ _ _ _ _ Hn) in Hp. simpl in Hp.
+    assert (Hdv : doc_keys_variant var = true).
+    { simpl in Hd. rewrite forallb_forall in Hd. apply (Hd (vn, var)). eapply nth_error_In; exact Hn. }
+    destruct (IH Hp Hdv) as (e' & E).
+    exists e'. assert (E3 : tv_ser (TEnum n vs) (SVariant i p) = Err e').
+    { rewrite ts_enum, (pick_nth _ _ _ _ _ Hn). unfold tv_variant. simpl. destruct var; [inversion Hu| | |]; rewrite E; reflexivity. }
+    split; [exact E3|]. tfield_part. rewrite E3. reflexivity.
+  - (* uv_newtype *) intros t p e _ IH Hty Hd. rewrite htv_newtype in Hty. destruct (IH Hty Hd) as (e' & E & _).
+    exists e'. rewrite tp_newtype. exact E.
+  - (* uv_tuple *) intros ts vs i t v e H1 H2 _ IH Hty Hd. rewrite htv_tuple in Hty.
+    destruct (IH (all2b_nth _ _ _ _ _ _ Hty H1 H2) (dk_forall_nth ts i t Hd H1)) as (e' & E & _).
+    destruct (zipM_fails tv_ser ts vs i t v e' H1 H2 E) as (e'' & E'').
+    exists e''. rewrite tp_tuple, E''. reflexivity.
+  - (* uv_struct *) intros fs vs i f t v e H1 H2 _ IH Hty Hd. rewrite htv_struct in Hty. apply andb_true_iff in Hty as [_ Hvs].
+    pose proof (all2b_nth _ _ _ _ _ _ Hvs H1 H2) as Hv. simpl in Hv.
+    destruct (IH Hv (dk_fields_nth fs i f t Hd H1)) as (e' & _ & E). specialize (E eq_refl).
+    destruct (zipM_fails (fun ft v' => rmap (optmap (fun x => (fst ft, x))) (ser_map_value tv_ser (snd ft) v')) fs vs i (f, t) v e' H1 H2)
+      as (e'' & E''); [simpl; rewrite E; reflexivity|].
+    exists e''. rewrite tp_struct. unfold tv_fields. rewrite E''. reflexivity.
+Qed.
+
+Theorem tv_unsupported_refused t v e : has_type v t -> doc_keys t = true -> unsupported CElem t v e ->
+  exists e', tv_ser t v = Err e'.
+Proof. intros Hty Hd U. destruct (tv_unsupported_refused_gen _ _ _ _ U Hty Hd) as (e' & E & _). eauto. Qed.
+
+(* Value::try_from accepts a well-typed value exactly when it has no documented unsupported shape — the verdict of
+   toml_edit's ValueSerializer (ser_ok_iff_supported) *)
+Theorem tv_ok_iff_supported t v : has_type v t -> doc_keys t = true ->
+  ((exists x, tv_ser t v = Ok x) <-> supported t v).
+Proof.
+  intros Hty Hd. split.
+  - intros (x & Hx) e U. destruct (tv_unsupported_refused t v e Hty Hd U) as (e' & E). congruence.
+  - apply tv_supported_ok. exact Hty.
+Qed.
+
+Theorem tv_same_verdict t v : has_type v t -> doc_keys t = true ->
+  ((exists y, tv_ser t v = Ok y) <-> (exists x, ser_value t v = Ok x)).
+Proof.
+  intros Hty Hd. rewrite (tv_ok_iff_supported t v Hty Hd). symmetry. apply ser_ok_iff_supported. exact Hty.
+Qed.
+
+(* whatever Value::try_from accepts, try_into gives back *)
+Theorem tryfrom_roundtrip t v out : has_type v t -> doc_keys t = true -> tv_ser t v = Ok out ->
+  exists v', tv_de t out = Ok v' /\ sval_eq v v'.
+Proof.
+  intros Hty Hd H. apply (tv_roundtrip_supported t v out Hty); [|exact H].
+  apply (tv_ok_iff_supported t v Hty Hd). exists out. exact H.
+Qed.
+
+Theorem table_tryfrom_roundtrip_full t v out : has_type v t -> doc_keys t = true -> tv_ser_table t v = Ok out ->
+  exists v', tv_de t out = Ok v' /\ sval_eq v v'.
+Proof.
+  intros Hty Hd H. destruct (tv_table_cases t v out Hty H) as [E|(d & -> & E)].
+  - apply (tryfrom_roundtrip t v out Hty Hd E).
+  - apply (tv_de_root_datetime t v d Hty E H).
+Qed.
+
+(* Table::try_from accepts nothing Value::try_from refuses: it, too, accepts `supported` values only *)
+Lemma tv_table_ok t : forall v out, has_type_b t v = true -> tv_ser_table t v = Ok out -> exists y, tv_ser t v = Ok y.
+Proof.
+  intros v out Hty H. destruct (tv_table_cases t v out Hty H) as [E|(d & _ & E)]; [eauto|].
+  revert v out Hty H E.
+  induction t using ty_ind2 with (Q := fun _ => True); try exact I; intros v out Hty Ht Hs;
+    try (destruct v; simpl in Ht; discriminate Ht).
+  - destruct v; simpl in Ht; try discriminate Ht. destruct (ser_method_of w); discriminate Ht.
+  - destruct v; simpl in Ht; try discriminate Ht. simpl in Hty. apply andb_true_iff in Hty as [Hr _].
+    simpl. unfold ser_datetime, dt_field_str. rewrite (print_parse_std d0 Hr). simpl. eexists; reflexivity.
+  - destruct v; try (simpl in Ht; discriminate Ht). rewrite ht_opt_some in Hty. rewrite ts_opt_some in *.
+    apply (IHt v out Hty Ht Hs).
+  - pose proof (tv_table_direct _ _ _ Hty Ht) as E. lazy beta iota in E. eauto.
+  - pose proof (tv_table_direct _ _ _ Hty Ht) as E. lazy beta iota in E. eauto.
+  - destruct v; try (simpl in Ht; discriminate Ht). rewrite ht_newtype in Hty. rewrite ts_newtype in *.
+    apply (IHt v out Hty Ht Hs).
+  - pose proof (tv_table_direct _ _ _ Hty Ht) as E. lazy beta iota in E. eauto.
+Qed.
+
+Theorem table_tryfrom_supported t v out : has_type v t -> doc_keys t = true -> tv_ser_table t v = Ok out -> supported t v.
+Proof.
+  intros Hty Hd H. apply (tv_ok_iff_supported t v Hty Hd). apply (tv_table_ok t v out Hty H).
 Qed.
